@@ -7,6 +7,7 @@ CONSTANTS
   FixEnqueue = TRUE
   FixBatch = TRUE
   LossySend = FALSE
+  HasKeepalive = TRUE
   Eager = TRUE
 
 CHECK_DEADLOCK FALSE
